@@ -217,6 +217,31 @@ P = {
   ref="§4 C19"),
 }
 
+# rules added after the first catalogue (each is a structural necessary condition; see DESIGN.md Part II for the change that prompted it)
+EXTRA = {
+ "C01": " A borrow-guard liveness rule on the context's RefCell: while a Ref/RefMut is alive no call may reach a second borrow of the cell (directly or through another context method).",
+ "C03": " The single characters the splitter tests (besides its punctuation set) contain no letter, digit or Bengali sign.",
+ "C04": " With every composition helper off, every path of the key-value processor appends the whole value; the number-pad option is a plain stored value "
+        "(getter = field, one pass-through setter, C setter passes the value); the key map stored in the layout object is the deserialised file, never mutably borrowed "
+        "between load and store.",
+ "C06": " Every context entry point performs exactly one virtual call of its trait method on every path, passes its parameters through and returns the call's own result.",
+ "C07": " The auto-correct, dictionary and suffix tables stored by Data's constructor are the deserialised bundled files, unmodified.",
+ "C09": " Only commit writes the learned map on the event path; the candidate compared by the look-up is built from the parts the commit will see.",
+ "C10": " After the in-memory insert the save is attempted under no condition other than the serialisation's outcome, and the write's outcome is not kept in the method's state; "
+        "a user auto-correct value reaches the parser only if ASCII and NUL-free.",
+ "C11": " The reload gate compares the stored modification time for inequality and a removed file empties the user map.",
+ "C12": " Vowel signs are a subset of vowels (class rule); a sign→vowel table written as a function (constant array searched, match returning Some) is read as a finite map; "
+        "every option the processor consults is a plain stored value.",
+ "C13": " The mobility test's classes cover every consonant, independent vowel and vowel sign; the old-reph option is a plain stored value.",
+ "C14": " The option itself (and every option consulted with it on) is a plain stored value; the context's session query, key and back-space entry points (and the exported "
+        "session query) delegate to the method object and return its answer.",
+ "C15": " Nothing of the Bengali block is in the splitter's special characters (the searched word is the typed word minus punctuation); the search never takes a mutable "
+        "reference to a ranked candidate (what is shown is what was measured); the same cleaning written as a filter loop is recognised and evaluated as a set.",
+ "C17": " Raw typed-text candidates are added by a plain push, never through the duplicate-dropping helper; the smart-quote option is a plain stored value.",
+ "C18": " The joiners of traditional joining are stripped from the name handed to the emoji look-up.",
+ "C19": " User auto-correct values containing NUL never reach a candidate (no interior NUL in returned C strings).",
+}
+
 NA_REASON = "rule module missing"
 
 
@@ -235,7 +260,7 @@ def main():
                 "evidence_file": "/verif/evidence/%s.json" % pid,
                 "replay_cmd_template": "./check %s --replay {path}" % pid,
                 "engine": "factgen+rules",
-                "level_claimed": {"category": "other", "text": d["text"], "design_ref": d["ref"]},
+                "level_claimed": {"category": "other", "text": d["text"] + EXTRA.get(pid, ""), "design_ref": d["ref"]},
                 "level_note": d["note"],
                 "technique": d["technique"],
             })
